@@ -202,6 +202,15 @@ def check_life(pid, tier, seed):
             json.dump({"property": pid, "kind": "e2e", "what": text, "record": rec}, open(pth, "w"))
             print(f"VIOLATION property={pid} replay={pth}")
         e2e_viol = est["violations"]
+    if "e2e_codes" in spec.get("extra", []):
+        from . import e2e
+        est = e2e.codes_check(seed, tier, wd)
+        os.makedirs(REPLAYS, exist_ok=True)
+        for n, (runno, text, rec) in enumerate(est["violations"][:2]):
+            pth = f"{REPLAYS}/{pid}_e2e{n}.json"
+            json.dump({"property": pid, "kind": "e2e", "what": text, "record": rec}, open(pth, "w"))
+            print(f"VIOLATION property={pid} replay={pth}")
+        e2e_viol = est["violations"]
     if "e2e_iso" in spec.get("extra", []):
         from . import e2e
         est = e2e.iso_check(seed, tier, wd)
@@ -233,7 +242,7 @@ def check_life(pid, tier, seed):
     for r, (pre, post, kf) in viol.items():
         for n in pre - {pid}:      # (before any known-finding pattern occurred in the run)
             others[n] = others.get(n, 0) + 1
-    for n in sorted(set(others) & {"AUDIT", "PAYSHAPE", "NOTIFY"}):
+    for n in sorted(set(others) & ({"AUDIT", "PAYSHAPE", "NOTIFY"} if not spec.get("direct") else set())):
         print(f"NOTE: growth predicate {n} does not hold in {others[n]} run(s) (not one of the listed properties)")
     samples = []
     for j in (jobs[0], jobs[len(jobs) // 2], jobs[-1]):
